@@ -119,6 +119,14 @@ def generate(repo):
     m = re.search(r"case 0: break;\s*case (\d+): substdio_puts", rb)
     if not m:
         raise ExtractError("qmail-rspawn.c report: exit-code switch not recognised")
+    # the two copies of child output: the first is a C string that starts at s+1 and ends at the NUL the loop just found;
+    # the second must be bounded by the end of the child's output (commit 9e1dfcc) — an unbounded substdio_puts there reads past it
+    flat = re.sub(r"\s+", "", rb)
+    if "substdio_puts(ss,s+1);" not in flat:
+        raise ExtractError("qmail-rspawn.c report: first copy of the child's output not recognised")
+    if "substdio_put(ss,s+k+1,byte_chr(s+k+1,len-k-1,0));" not in flat or "substdio_puts(ss,s+k+1)" in flat:
+        raise ExtractError("qmail-rspawn.c report: the second copy of the child's output is not bounded by len "
+                           "(expected substdio_put(ss,s + k + 1,byte_chr(s + k + 1,len - k - 1,0)))")
     out.append("def R_CRASHED : List UInt8 := %s" % cstr(fixed[0]))
     out.append("def R_SOFTCODE : Nat := %s" % m.group(1))
     out.append("def R_SOFT : List UInt8 := %s" % cstr(fixed[1]))
